@@ -14,10 +14,11 @@ INVS = ("ConditionalIsWeightedMean", "SingleGroup", "InUnit", "CrossSymmetric", 
 LET = "AC"
 
 
-def cfg_text(fns, maxlen=1, maxrows=3, keys=(1, 2), v2s="V1", weights=(1, 2), edges="E1", mutations=(), invs=INVS, emit=True):
+def cfg_text(fns, maxlen=1, maxrows=3, keys=(1, 2), v2s="V1", weights=(1, 2), edges="E1", mutations=(), invs=INVS, emit=True, mingroups=1):
     t = "SPECIFICATION Spec\nCONSTANTS\n  Letters = {0, 1}\n"
     t += f"  MaxLen = {maxlen}\n  MaxRows = {maxrows}\n  Keys = {{{', '.join(map(str, keys))}}}\n  V2s <- {v2s}\n"
     t += f"  WeightVals = {{{', '.join(map(str, weights))}}}\n  EdgeSets <- {edges}\n"
+    t += f"  MinGroups = {mingroups}\n"
     t += "  Fns = {" + ", ".join(f'"{k}"' for k in fns) + "}\n"
     t += "  Mutations = {" + ", ".join(f'"{k}"' for k in mutations) + "}\n"
     for i in invs:
@@ -43,12 +44,16 @@ def model_runs(quick):
         return [("cond", cfg_text(["pc_conditional"], maxrows=3, keys=(1, 2), v2s="V2")),
                 ("cond3", cfg_text(["pc_conditional"], maxrows=3, keys=(11, 12, 21), v2s="V1", weights=(1, 3))),
                 ("cross", cfg_text(["pc_grouped_cross", "renyi2"], maxrows=3, keys=(1, 2, 3), v2s="V1")),
-                ("delta", cfg_text(["pcDelta_grouped", "pcDelta_grouped_cross"], maxrows=4, keys=(1, 2), edges="E1"))]
+                ("delta", cfg_text(["pcDelta_grouped", "pcDelta_grouped_cross"], maxrows=4, keys=(1, 2), edges="E1")),
+                # many groups: every cell of the cross tables must belong to ITS pair of groups
+                ("many", cfg_text(["pc_grouped_cross", "pcDelta_grouped_cross"], maxrows=4, keys=(1, 2, 3, 4), edges="E1", mingroups=4))]
     return [("cond", cfg_text(["pc_conditional"], maxrows=5, keys=(1, 2), v2s="V1", weights=(1, 2, 3))),
             ("cond3", cfg_text(["pc_conditional"], maxrows=4, keys=(11, 12, 21), v2s="V2", weights=(1, 3))),
             ("cross", cfg_text(["pc_grouped_cross", "renyi2"], maxrows=4, keys=(1, 2, 3), v2s="V2")),
             ("delta", cfg_text(["pcDelta_grouped", "pcDelta_grouped_cross"], maxrows=4, keys=(1, 2, 3), edges="E2")),
-            ("delta5", cfg_text(["pcDelta_grouped", "pcDelta_grouped_cross"], maxrows=5, keys=(1, 2), edges="E1"))]
+            ("delta5", cfg_text(["pcDelta_grouped", "pcDelta_grouped_cross"], maxrows=5, keys=(1, 2), edges="E1")),
+            ("many", cfg_text(["pc_grouped_cross", "pcDelta_grouped_cross", "pcDelta_grouped", "pc_conditional"], maxrows=5, keys=(1, 2, 3, 4), edges="E1", mingroups=4)),
+            ("many5", cfg_text(["pc_grouped_cross", "pcDelta_grouped_cross"], maxrows=5, keys=(1, 2, 3, 4, 5), edges="E1", mingroups=5))]
 
 
 def S(codes):
@@ -231,21 +236,28 @@ def run(ctx):
     ctx.assumptions = ["the logarithm itself is harness-side (base^(-H) compared with the spec's pc)", "tables with a single group are not judged for the cross-group functions",
                        "pcDelta_grouped_cross square form only for bins=0 (the statement's diagonal clause); edge-vector bins through the condensed form"]
     n = 0
-    for name, text in model_runs(ctx.quick):
-        res = run_cfg(ctx, name, text)
-        for doc in ctx.sample([d for d in res.printed if "fn" in d], 25000):
-            if "fn" in doc:
-                n += 1
-                if ctx.quick and n % {"cond": 4, "cond3": 12, "cross": 4, "delta": 8}.get(name, 3):
-                    continue
-                replay_doc(ctx, doc, n)
-                ctx.traces += 1
+    runs = model_runs(ctx.quick)
+    results = ctx.mc_batch("MCGrouped", [(name, text, None) for name, text in runs], parallel=5, workers=4)
+    for name, text in runs:
+        res = results[name]
+        docs = []
+        for doc in ctx.sample([d for d in res.printed if "fn" in d], 60000):
+            n += 1
+            if ctx.quick and n % {"cond": 2, "cond3": 6, "cross": 2, "delta": 4, "many": 6}.get(name, 3):
+                continue
+            docs.append((n, doc))
+        ctx.parallel(docs, _replay_item)
     ctx.exhaustive = True
     std_entropy_part(ctx, 30 if ctx.quick else 300)
     run_cfg(ctx, "NEG_w", cfg_text(["pc_conditional"], maxrows=4, keys=(1, 2), weights=(1, 2), mutations=["weights_not_squared"], invs=("ConditionalIsWeightedMean",), emit=False),
             expect_violation=["ConditionalIsWeightedMean"], workers=4)
     run_cfg(ctx, "NEG_s", cfg_text(["pc_conditional"], maxrows=3, keys=(1, 2), mutations=["keep_singletons"], invs=("ConditionalIsWeightedMean", "SingleGroup", "InUnit"), emit=False),
             expect_violation=["ConditionalIsWeightedMean", "SingleGroup", "InUnit"], workers=4)
+
+
+def _replay_item(ctx, i, item):
+    replay_doc(ctx, item[1], item[0])
+    ctx.traces += 1
 
 
 def replay(doc):
